@@ -59,7 +59,7 @@ func init() {
 	def("C17", "exploration", "family 'offline': zone layouts, caps, lag scripts around both thresholds, broken replication, resetup status; per-pass policy constraints."+nt, familyPlan{"offline", 300, 6000, false})
 	def("C18", "exploration", "family 'disk': usage scripts for master and semi-sync replicas through the three zones; hysteresis table vs read_only statements."+nt, familyPlan{"disk", 300, 6000, false})
 	def("C19", "exploration", "family 'optimization': registries, lag scripts, CLI enable/disable interleaved with syncs, switchovers to lagging replicas."+nt, familyPlan{"optimization", 300, 6000, false})
-	def("C20", "exploration", "family 'chaos': long runs with everything at once + tool-only tree contents; process death, goroutine/connection growth in steady runs, race detector build."+nt, familyPlan{"chaos", 60, 1200, false}, familyPlan{"chaos", 12, 200, true})
+	def("C20", "exploration", "family 'chaos': long runs with everything at once + tool-only tree contents; process death, goroutine/connection growth in steady runs, race detector build."+nt, familyPlan{"chaos", 60, 1200, false}, familyPlan{"chaos", 8, 200, true})
 }
 
 type knownFinding struct {
